@@ -470,6 +470,13 @@ def install(w):
 
     w.reg(enum.Enum, h_enum, "enum.IntEnum.__call__")
 
+    import traceback
+
+    class _Frame:
+        name = "<caller>"  # A-STACK: the caller of DateTime.__add__ is not datetime.astimezone
+
+    w.reg(traceback.extract_stack, lambda ex, st, args, kw, line: iter([(st, [_Frame()])]), "traceback.extract_stack (A-STACK: caller is not astimezone)")
+
     install_datetime(w)
     install_calendar(w)
 
